@@ -262,5 +262,27 @@ Definition known_C05 (c : c05case) : list Z :=
       cls (k_nullvar q ps) 6 ++ cls (k_spliced m q) 8
   end.
 
+(* ---- what the real parser and parameter validation guarantee (hypotheses of the theorems) ---- *)
+Definition filter_default (m : emodel) (q : query) (f : qfilter) : option val :=
+  match ref_field q (fl_ref f) with Some i => default_of m i | None => None end.
+Definition wf_query (m : emodel) (q : query) : bool :=
+  (* `= null` only on fields without a default (a field is nullable or has a default, never both) *)
+  forallb (fun f => match fl_val f, filter_default m q f with OLit VNull, Some _ => false | _, _ => true end) (q_filters q)
+  && forallb (fun fd => match fd_default fd with Some VNull => false | _ => true end) (em_fields m)
+  (* after / before: at least one value, no more values than order keys, never the literal null *)
+  && forallb (fun o => match o with OLit VNull => false | _ => true end) (paging_values (q_paging q))
+  && match q_paging q with
+     | PNone => true
+     | p => negb (Nat.eqb (List.length (paging_values p)) 0) && Nat.leb (List.length (paging_values p)) (List.length (q_order q))
+     end.
+Definition params_ok (q : query) (ps : params) : bool :=
+  forallb (fun n => match lookup n ps with Some _ => true | None => false end) (query_vars q)
+  && match option_map as_int (operand_value ps (q_first q)) with Some (Some _) => true | _ => false end
+  && match q_skip q with
+     | None => true
+     | Some o => match option_map as_int (operand_value ps o) with Some (Some _) => true | _ => false end
+     end
+  && forallb (fun o => match operand_value ps o with Some VNull => false | _ => true end) (paging_values (q_paging q)).
+
 Definition eval_C05 (c : c05case) (obs : list Z) : list Z :=
   [zb (zlist_eqb (run_C05 c) obs); zb (spec_C05 c obs)] ++ known_C05 c.
